@@ -28,6 +28,9 @@ type PathQuery struct {
 	StopBlock func(b *cfg.Block) bool
 	// ToBlock: entering such a block counts as reaching the target.
 	ToBlock func(b *cfg.Block) bool
+	// FromBlock: the search starts at the entry of such blocks (instead of after a `from` node
+	// or at function entry), e.g. the body block of a loop: one iteration from its start.
+	FromBlock func(b *cfg.Block) bool
 	// TrackNil: a pointer variable whose nil-ness is tracked along each path
 	// (assignments of nil / of anything else, `x == nil` / `x != nil` edges), so that
 	// paths contradicting their own tests are not explored.
@@ -315,7 +318,13 @@ func (q *PathQuery) Escapes(from, to, via nodePred, exitOK func(ret *ast.ReturnS
 		return nil
 	}
 	var starts []state
-	if from == nil {
+	if q.FromBlock != nil {
+		for _, b := range q.G.Blocks {
+			if b.Live && q.FromBlock(b) && b.Stmt != nil {
+				starts = append(starts, state{b, 0, &pathLink{b.Stmt, nil}, q.startState(nilUnknown)})
+			}
+		}
+	} else if from == nil {
 		starts = append(starts, state{q.G.Blocks[0], 0, nil, q.startState(nilUnknown)})
 	} else {
 		for _, b := range q.G.Blocks {
